@@ -60,7 +60,11 @@ def gen(chk, tier):
                 alias = rng.choice(["none", "none", "ra", "rb"]) if a != b else rng.choice(["none", "rab", "ab"])
                 g.one("%s_%s" % (field, fn), "fiat.op", field=field, fn=fn, a=b32(a), b=b32(b), alias=alias)
             g.one("%s_select" % field, "fiat.op", field=field, fn="select", a=b32(a), b=b32(b), cond=rng.randrange(2),
-                  alias="none")
+                  alias=rng.choice(["none", "ra", "rb"]) if a != b else "none")
+            if rng.random() < 0.15:         # both conditions with the receiver aliasing the FIRST and the SECOND operand
+                for cond in (0, 1):
+                    for al in ("ra", "rb"):
+                        g.one("%s_select_aliased" % field, "fiat.op", field=field, fn="select", a=b32(a), b=b32(b), cond=cond, alias=al)
             if rng.random() < 0.3:
                 g.one("%s_pred" % field, "fiat.pred", field=field, a=b32(a), b=b32(rng.choice([a, b])))
         # operands chosen by their INTERNAL (Montgomery-domain) limbs: the generated code adds / subtracts / multiplies
